@@ -314,6 +314,12 @@ func TestVerifC04History(t *testing.T) {
 					}
 
 					nearMiss = "qtype"
+				case 5:
+					// Types that differ in bit 5 of one octet only, as upper
+					// and lower case letters do (HTTPS 65 and TYPE97, 321 and
+					// 353): a key that is case-folded as a whole merges them.
+					q.qt ^= 0x20
+					nearMiss = "qtype-bit5"
 				case 4:
 					q.qc = map[uint16]uint16{dns.ClassINET: dns.ClassCHAOS, dns.ClassCHAOS: dns.ClassINET}[q.qc]
 					nearMiss = "qclass"
@@ -328,7 +334,7 @@ func TestVerifC04History(t *testing.T) {
 
 				q = vq{
 					name: name,
-					qt:   rapid.SampledFrom([]uint16{dns.TypeA, dns.TypeA, dns.TypeAAAA, dns.TypeTXT, dns.TypeHTTPS, dns.TypeMX}).Draw(t, "qt"),
+					qt:   rapid.SampledFrom([]uint16{dns.TypeA, dns.TypeA, dns.TypeAAAA, dns.TypeTXT, dns.TypeHTTPS, dns.TypeHTTPS, 97, 321, dns.TypeMX}).Draw(t, "qt"),
 					qc:   rapid.SampledFrom([]uint16{dns.ClassINET, dns.ClassINET, dns.ClassINET, dns.ClassCHAOS}).Draw(t, "qc"),
 					do:   rapid.IntRange(0, 3).Draw(t, "do") == 0,
 				}
@@ -345,6 +351,21 @@ func TestVerifC04History(t *testing.T) {
 			req.Question = []dns.Question{{Name: name, Qtype: qt, Qclass: qc}}
 			if do || rapid.IntRange(0, 3).Draw(t, "edns") == 0 {
 				req.SetEdns0(uint16(rapid.SampledFrom([]int{512, 1232, 4096}).Draw(t, "udpsize")), do)
+			}
+
+			// Sometimes a second OPT record with the opposite DO bit comes
+			// first (illegal by RFC 6891, but served): the DO bit that counts is
+			// that of the last record, which is also what goes upstream.
+			twoOPT := false
+			if req.IsEdns0() != nil && rapid.IntRange(0, 7).Draw(t, "twoOPT") == 0 {
+				first := &dns.OPT{Hdr: dns.RR_Header{Name: ".", Rrtype: dns.TypeOPT}}
+				first.SetUDPSize(4096)
+				if !do {
+					first.SetDo()
+				}
+
+				req.Extra = append([]dns.RR{first}, req.Extra...)
+				twoOPT = true
 			}
 
 			key := vdns.QKey(req.Question[0], do)
@@ -377,6 +398,10 @@ func TestVerifC04History(t *testing.T) {
 			e, inModel := model[key]
 			age := fc.now - e.stored
 			classes := []string{"kind-" + vdns.KindNames[kind]}
+			if twoOPT {
+				classes = append(classes, "two-opt-records-do-differs")
+			}
+
 			if nearMiss != "" {
 				classes = append(classes, "near-miss-"+nearMiss)
 			}
